@@ -34,6 +34,9 @@ async def expect_async(expecter, timeout=None):
     else:
         pattern_waiter, transport = expecter.spawn.async_pw_transport
         pattern_waiter.set_expecter(expecter)
+        if transport.is_closing():
+            # The stream ended while no call was outstanding.
+            return expecter.eof()
         transport.resume_reading()
     try:
         return await asyncio.wait_for(pattern_waiter.fut, timeout)
@@ -108,6 +111,14 @@ class PatternWaiter(asyncio.Protocol):
     def eof_received(self):
         # N.B. If this gets called, async will close the pipe (the spawn object)
         # for us
+        if self.fut.done():
+            # Nobody is waiting for this: the last call has already matched
+            # or timed out.  Only note that the stream has ended; running the
+            # old expecter's eof() here would move the pending text into
+            # 'before' behind the caller's back and the next call would
+            # never see it.
+            self.expecter.spawn.flag_eof = True
+            return
         try:
             self.expecter.spawn.flag_eof = True
             index = self.expecter.eof()
